@@ -22,12 +22,12 @@ META = {
         "country table is whatever the tree's iban_registry/*.json merge to (re-read every run)",
         "R-IBAN (vf/ref/iban.py) encodes ISO 13616 / ISO 7064 MOD 97-10; DONT_CARE on non-ASCII characters whose upper-casing is ASCII alphanumeric and on whitespace outside {space,\\t,\\n,\\r,\\f,\\v,NBSP}",
     ],
-    "min_distinct": {"quick": 50000, "thorough": 500000},
+    "min_distinct": {"quick": 100000, "thorough": 3000000},
 }
 
 SIZES = {
-    "quick": dict(valid=8, sweep_positions=6, pairs_bbans=2, w8=300, w7=1500, deco=4, prefix_bodies=3, hyp=300),
-    "thorough": dict(valid=60, sweep_positions=None, pairs_bbans=12, w8=12000, w7=30000, deco=30, prefix_bodies=12, hyp=4000),
+    "quick": dict(valid=16, sweep_positions=10, sweep_bases=1, pairs_bbans=3, w8=800, w7=4000, deco=6, prefix_bodies=4, hyp=600),
+    "thorough": dict(valid=150, sweep_positions=None, sweep_bases=4, pairs_bbans=30, w8=40000, w7=200000, deco=80, prefix_bodies=30, hyp=20000),
 }
 
 
@@ -82,7 +82,7 @@ def run_country(shard, mon: Mon):
         # W2 position x alphabet
         pos = sweep_positions(spec, rng, sz["sweep_positions"])
         mon.tally("positions_swept", len(pos))
-        for p in pos:
+        for p, base in [(p, b) for b in bases[: sz["sweep_bases"]] for p in pos]:
             for ch in alpha:
                 t = base[:p] + ch + base[p + 1 :]
                 if p < 2 or p >= 4:
